@@ -193,3 +193,883 @@ def domain(serializer: str, level: int) -> list:
         inner = _containers(tiny)
         vals += [c for c in _containers(small + inner) if _depth(c) == 2]
     return vals
+
+
+_DOMAINS: dict = {}
+
+
+def values_for(serializer: str, level: str) -> list:
+    """Named, deterministic value lists (regenerated identically in every process / replay).
+    'atoms' | 'l1' | 'l2' as in domain(); 'lite' = atoms + containers over the small atoms +
+    singleton containers over every atom (used where one case costs milliseconds)."""
+    key = (serializer, level)
+    if key not in _DOMAINS:
+        if level == "atoms":
+            v = domain(serializer, 0)
+        elif level == "l1":
+            v = domain(serializer, 1)
+        elif level == "l2":
+            v = domain(serializer, 2)
+        elif level == "lite":
+            atoms = domain(serializer, 0)
+            v = atoms + _containers(atoms_small()) + [[a] for a in atoms] + [{"k": a} for a in atoms]
+        else:
+            raise ValueError(level)
+        _DOMAINS[key] = v
+    return _DOMAINS[key]
+
+
+# ---------------------------------------------------------------------------
+# (a) worlds and cases
+# ---------------------------------------------------------------------------
+class RTWorld:
+    """Client app + worker-side app for one (serializer, store, data-store switch)."""
+
+    def __init__(self, serializer: str, backend: str, cds_off: bool, thr: int | None = None) -> None:
+        env.reset_world()
+        conf: dict = dict(serializer_cls=serializer, disable_client_data_store=cds_off)
+        if thr is not None:
+            conf["min_size_to_cache"] = thr
+        self.backend = backend
+        self.conf = conf
+        if backend == env.MEM:
+            # the in-memory store lives in the app object: the worker side is the same app object
+            # with an emptied LRU of deserialised objects
+            self.app = env.make_app(env.MEM, app_id="c15", **conf)
+            self.wapp = self.app
+        else:
+            self.db = env.reuse_db("c15")
+            self.app = env.make_app(env.SQLITE, app_id="c15", db=self.db, **conf)
+            self.wapp = env.make_app(env.SQLITE, app_id="c15", db=self.db, **conf)
+        self.tasks = {}
+        for dname, fn, dca in DCA_TASKS:
+            self.tasks[dname] = self.app.task(getattr(T, fn), disable_cache_args=dca)
+            if self.wapp is not self.app:
+                self.wapp.task(getattr(T, fn), disable_cache_args=dca)
+
+    def set_threshold(self, thr: int) -> None:
+        self.app.client_data_store.conf.min_size_to_cache = thr
+        if self.wapp is not self.app:
+            self.wapp.client_data_store.conf.min_size_to_cache = thr
+
+    def worker(self, fresh: bool):
+        """The reading side: cold LRU; with `fresh` (SQLite) a brand-new app object."""
+        if fresh and self.backend == env.SQLITE:
+            w = env.make_app(env.SQLITE, app_id="c15", db=self.db, **self.conf)
+            for _, fn, dca in DCA_TASKS:
+                w.task(getattr(T, fn), disable_cache_args=dca)
+            return w
+        self.wapp.client_data_store._deserialized_cache.clear()
+        return self.wapp
+
+    def client_cold(self):
+        self.app.client_data_store._deserialized_cache.clear()
+        return self.app
+
+
+def thresholds(L: int) -> list[int]:
+    return sorted({1, L - 1, L, L + 1, 1024})
+
+
+def _viol(p: Partial, clause: str, value: Any, cfg: dict, detail: dict, rp: dict, **sig: Any) -> None:
+    p.violation({"clause": clause, "value": vclass(value), **sig},
+                {**cfg, "value": crep(value)[:300], **detail}, rp)
+
+
+def run_case(p: Partial, w: RTWorld, value: Any, thr: int, cfg: dict, rp: dict, fresh: bool,
+             refs: dict, later: list) -> None:
+    """One value under one (serializer, store, switch, threshold): three argument round trips
+    (one per disable_cache_args option) and one result round trip."""
+    app = w.app
+    s0 = app.serializer.serialize(value)
+    L = len(s0)
+    content = crep(value)
+    last_inv = None
+    for dname, _fn, dca in DCA_TASKS:
+        c = {**cfg, "thr": thr, "L": L, "disable_cache_args": dname}
+        p.count("states")
+        p.count("value_cases")
+        try:
+            inv = w.tasks[dname](x=value)
+            p.count("transitions")
+            sa = inv.call.serialized_arguments
+            got = w.worker(fresh).state_backend.get_invocation(inv.invocation_id).arguments.kwargs
+            p.count("transitions")
+        except Exception as e:  # noqa: BLE001 - any failure of the trip is the observation
+            _viol(p, "argument-roundtrip-raises", value, c, {"error": f"{type(e).__name__}: {e}"[:300]}, rp,
+                  error=type(e).__name__)
+            continue
+        last_inv = inv
+        p.count("traces_validated_against_impl")
+        if set(got) != {"x"} or not deq(value, got["x"]):
+            _viol(p, "argument-not-restored", value, c, {"got": crep(got)[:300], "stored": repr(sa)[:200]}, rp)
+            continue
+        later.append((inv.invocation_id, value, c, "arg"))
+        sx = sa.get("x", "")
+        ext = sx.startswith(PREFIX)
+        ext_expected = (not cfg["cds_off"]) and not dca and L >= thr
+        if ext != ext_expected:
+            _viol(p, "externalisation-differs-from-documented-threshold", value, c,
+                  {"externalised": ext, "expected": ext_expected, "stored": sx[:120]}, rp, path="argument")
+            continue
+        p.count("externalised" if ext else "inline")
+        if ext:
+            _bijection(p, refs, sx, content, value, c, rp)
+    if last_inv is None:
+        return
+    # ---- result (written by the worker side, read by the client side)
+    c = {**cfg, "thr": thr, "L": L}
+    iid = last_inv.invocation_id
+    p.count("states")
+    p.count("value_cases")
+    try:
+        w.wapp.state_backend.set_result(iid, value)
+        raw = w.wapp.state_backend._get_result(iid)
+        got = w.client_cold().state_backend.get_result(iid)
+        p.count("transitions", 2)
+    except Exception as e:  # noqa: BLE001
+        _viol(p, "result-roundtrip-raises", value, c, {"error": f"{type(e).__name__}: {e}"[:300]}, rp,
+              error=type(e).__name__)
+        return
+    p.count("traces_validated_against_impl")
+    if not deq(value, got):
+        _viol(p, "result-not-restored", value, c, {"got": crep(got)[:300], "stored": repr(raw)[:200]}, rp)
+        return
+    later.append((iid, value, c, "res"))
+    ext = raw.startswith(PREFIX)
+    ext_expected = (not cfg["cds_off"]) and L >= thr
+    if ext != ext_expected:
+        _viol(p, "externalisation-differs-from-documented-threshold", value, c,
+              {"externalised": ext, "expected": ext_expected, "stored": raw[:120]}, rp, path="result")
+        return
+    if ext:
+        _bijection(p, refs, raw, content, value, c, rp)
+    if isinstance(value, Exception):
+        try:
+            w.wapp.state_backend.set_exception(iid, value)
+            got = w.client_cold().state_backend.get_exception(iid)
+            p.count("transitions", 2)
+        except Exception as e:  # noqa: BLE001
+            _viol(p, "exception-roundtrip-raises", value, c, {"error": f"{type(e).__name__}: {e}"[:300]}, rp,
+                  error=type(e).__name__)
+            return
+        p.count("traces_validated_against_impl")
+        if not deq(value, got):
+            _viol(p, "exception-not-restored", value, c, {"got": crep(got)[:300]}, rp)
+
+
+def _bijection(p: Partial, refs: dict, ref: str, content: str, value: Any, c: dict, rp: dict) -> None:
+    """Content addressing over everything this world has externalised so far."""
+    r2c, c2r = refs.setdefault("r2c", {}), refs.setdefault("c2r", {})
+    if r2c.setdefault(ref, content) != content:
+        _viol(p, "one-reference-for-two-contents", value, c, {"reference": ref, "other": r2c[ref][:200]}, rp)
+    if c2r.setdefault(content, ref) != ref:
+        _viol(p, "two-references-for-equal-content", value, c, {"reference": ref, "other": c2r[content]}, rp)
+    p.count("reference_checks")
+
+
+def reread(p: Partial, w: RTWorld, later: list, rp_of, fresh: bool) -> None:
+    """Second reading after every write of the world has happened (a later write must not change
+    what an earlier reference resolves to)."""
+    for iid, value, c, kind in later:
+        try:
+            if kind == "arg":
+                got = w.worker(fresh).state_backend.get_invocation(iid).arguments.kwargs.get("x", _MISSING)
+            else:
+                got = w.client_cold().state_backend.get_result(iid)
+            p.count("transitions")
+        except Exception as e:  # noqa: BLE001
+            _viol(p, "second-read-raises", value, c, {"error": f"{type(e).__name__}: {e}"[:300], "path": kind},
+                  rp_of(value, c), error=type(e).__name__)
+            continue
+        p.count("traces_validated_against_impl")
+        if got is _MISSING or not deq(value, got):
+            _viol(p, "second-read-differs", value, c, {"got": crep(got)[:300], "path": kind}, rp_of(value, c))
+
+
+def _values_unit(item: tuple) -> Partial:
+    serializer, backend, cds_off, level, lo, hi, fresh = item
+    p = Partial()
+    vals = values_for(serializer, level)
+    cfg = {"serializer": serializer, "store": backend, "cds_off": cds_off}
+
+    def rp(idx: int, thr: int) -> dict:
+        return {"kind": "value", "serializer": serializer, "store": backend, "cds_off": cds_off,
+                "level": level, "index": idx, "thr": thr, "fresh": fresh}
+
+    if not fresh:
+        w = RTWorld(serializer, backend, cds_off)
+        refs: dict = {}
+        later: list = []
+        for idx in range(lo, min(hi, len(vals))):
+            v = vals[idx]
+            L = len(w.app.serializer.serialize(v))
+            for thr in thresholds(L):
+                w.set_threshold(thr)
+                run_case(p, w, v, thr, {**cfg, "index": idx}, rp(idx, thr), False, refs, later)
+            if len(p.samples) < 1 and idx == lo:
+                p.sample({**cfg, "value": crep(v)[:120], "serialized_length": L, "thresholds": thresholds(L)})
+        reread(p, w, later, lambda v, c: rp(c["index"], c["thr"]), False)
+    else:
+        # configuration through config_values (the public path), new app objects for every case,
+        # and a brand-new app object for every worker-side read on SQLite
+        measure = RTWorld(serializer, backend, cds_off).app.serializer  # only to learn L
+        for idx in range(lo, min(hi, len(vals))):
+            v = vals[idx]
+            L = len(measure.serialize(v))
+            for thr in thresholds(L):
+                w = RTWorld(serializer, backend, cds_off, thr)
+                later = []
+                run_case(p, w, v, thr, {**cfg, "index": idx, "fresh_apps": True}, rp(idx, thr), True, {}, later)
+                reread(p, w, later, lambda v, c: rp(c["index"], c["thr"]), True)
+                p.count("fresh_app_cases")
+    return p
+
+
+# ---------------------------------------------------------------------------
+# (b) store histories
+# ---------------------------------------------------------------------------
+def _store_values(n: int) -> list:
+    # v0 and v1: equal content, distinct objects; v2: different content of the same serialized length
+    return [[1, 2], [1, 2], [3, 4]][:n]
+
+
+class StoreWorld:
+    """Real data store + content-addressed model, driven by one operation history."""
+
+    def __init__(self, serializer: str, backend: str, n: int) -> None:
+        self.serializer, self.backend, self.n = serializer, backend, n
+
+    def _new_app(self):
+        conf = dict(serializer_cls=self.serializer, min_size_to_cache=1)
+        if self.backend == env.MEM:
+            return env.make_app(env.MEM, app_id="c15s", **conf)
+        return env.make_app(env.SQLITE, app_id="c15s", db=self.db, **conf)
+
+    def reset(self) -> None:
+        env.reset_world()
+        if self.backend == env.SQLITE:
+            self.db = env.reuse_db("c15s")
+        self.cds = self._new_app().client_data_store
+        self.vals = _store_values(self.n)
+        self.model: dict = {}  # reference -> deep copy of the content it was created from
+        self.issued: list = []  # (reference, snapshot) in order of creation
+        self.last_ref: list = [None] * self.n
+        self.returned: list = [None] * self.n
+        self.mutated_returned: list = []
+
+    def enabled(self) -> list[tuple]:
+        ops: list[tuple] = []
+        for i in range(self.n):
+            ops.append(("ser", i))
+            if self.last_ref[i] is not None:
+                ops.append(("res", i))
+            if self.returned[i] is not None:
+                ops.append(("mret", i))
+            ops.append(("morig", i))
+        ops += [("purge",), ("cold",)]
+        return ops
+
+    def _alias(self, obj: Any) -> str:
+        if any(obj is v for v in self.vals):
+            return "callers-live-object"
+        if any(obj is r for r in self.mutated_returned):
+            return "object-returned-earlier"
+        return "none"
+
+    def _check_resolve(self, ref: str) -> tuple | None:
+        try:
+            obj = self.cds.resolve(ref)
+        except KeyError:
+            if ref in self.model:
+                return ({"clause": "store:live-reference-does-not-resolve"}, {"reference": ref}), None
+            return None, None
+        except Exception as e:  # noqa: BLE001
+            return ({"clause": "store:resolve-raises", "error": type(e).__name__}, {"error": str(e)[:200]}), None
+        if ref not in self.model:
+            return ({"clause": "store:purged-reference-still-resolves"}, {"got": crep(obj)}), obj
+        if not deq(obj, self.model[ref]):
+            return ({"clause": "store:reference-resolves-to-changed-content", "alias": self._alias(obj)},
+                    {"got": crep(obj), "created_from": crep(self.model[ref])}), obj
+        return None, obj
+
+    def apply(self, op: tuple) -> tuple | None:
+        """Execute one operation; returns (signature, detail) on a violation."""
+        kind = op[0]
+        if kind == "ser":
+            i = op[1]
+            snap = copy.deepcopy(self.vals[i])
+            ref = self.cds.serialize(self.vals[i])
+            if not ref.startswith(PREFIX):
+                return {"clause": "store:not-externalised-at-min-size-1"}, {"got": ref[:80]}
+            for ref2, snap2 in self.issued:
+                if deq(snap, snap2) != (ref == ref2):
+                    clause = "store:two-references-for-equal-content" if deq(snap, snap2) else "store:one-reference-for-two-contents"
+                    return {"clause": clause}, {"a": crep(snap), "b": crep(snap2), "ref_a": ref, "ref_b": ref2}
+            self.issued.append((ref, snap))
+            self.model[ref] = snap
+            self.last_ref[i] = ref
+            return None
+        if kind == "res":
+            i = op[1]
+            bad, obj = self._check_resolve(self.last_ref[i])
+            self.returned[i] = obj
+            return bad
+        if kind == "mret":
+            obj = self.returned[op[1]]
+            obj.append(9)
+            if not any(obj is r for r in self.mutated_returned):
+                self.mutated_returned.append(obj)
+            return None
+        if kind == "morig":
+            self.vals[op[1]].append(9)
+            return None
+        if kind == "purge":
+            self.cds.purge()
+            self.model.clear()
+            return None
+        if kind == "cold":
+            if self.backend == env.MEM:
+                self.cds._deserialized_cache.clear()  # the store lives in the object: only the LRU goes cold
+            else:
+                self.cds = self._new_app().client_data_store  # another process's view of the same database
+            return None
+        raise ValueError(op)
+
+    def readout(self) -> tuple | None:
+        seen = set()
+        for ref, _snap in self.issued:
+            if ref in seen:
+                continue
+            seen.add(ref)
+            bad, _ = self._check_resolve(ref)
+            if bad:
+                return bad
+        return None
+
+    def dump(self) -> str:
+        cds = self.cds
+        if self.backend == env.MEM:
+            stored = tuple(sorted(cds._storage.items()))
+        else:
+            import sqlite3
+
+            with sqlite3.connect(cds.sqlite_db_path) as conn:
+                stored = tuple(conn.execute(f"SELECT data_key, data_value FROM {cds.tables.STORE} ORDER BY data_key").fetchall())
+            conn.close()
+        lru = tuple((k, crep(o)) for k, o in cds._deserialized_cache.items())
+        return repr((self.serializer, self.backend, stored, lru, crep(self.vals), self.last_ref))
+
+
+def _run_history(w: StoreWorld, hist: tuple, p: Partial | None) -> tuple | None:
+    """Replay `hist` on a fresh world; returns (signature, detail, failing op index) or None."""
+    w.reset()
+    for k, op in enumerate(hist):
+        if op not in w.enabled():
+            raise ValueError(f"operation {op} not enabled in {hist}")
+        bad = w.apply(op)
+        if p is not None:
+            p.count("transitions")
+        if bad:
+            return bad[0], bad[1], k
+    if p is not None:
+        p.add("store_states", w.dump())
+    bad = w.readout()
+    if p is not None:
+        p.count("transitions", len({r for r, _ in w.issued}))
+    if bad:
+        return bad[0], bad[1], len(hist)
+    return None
+
+
+def _store_unit(item: tuple) -> Partial:
+    serializer, backend, n, depth, first = item
+    p = Partial()
+    w = StoreWorld(serializer, backend, n)
+    cfg = {"serializer": serializer, "store": backend, "values": n}
+    frontier = [(first,)]
+    reported: set = set()
+    for d in range(1, depth + 1):  # breadth first: the first history reported for a signature is a shortest one
+        nxt: list = []
+        for hist in frontier:
+            res = _run_history(w, hist, p)
+            p.count("store_histories")
+            p.count("traces_validated_against_impl")
+            if res is not None:
+                sig, detail, _k = res
+                key = repr(sorted(sig.items()))
+                if key not in reported:
+                    reported.add(key)
+                    p.violation(sig, {**cfg, **detail, "history": list(hist)},
+                                {"kind": "store", **cfg, "history": [list(o) for o in hist]})
+                continue  # never extend a history that already violates
+            if d < depth:
+                # the enabled set after `hist` is the world's current one (the read-out does not change it)
+                nxt.extend(hist + (op,) for op in w.enabled())
+            elif len(p.samples) < 1:
+                p.sample({**cfg, "a_history_that_held": [list(o) for o in hist]})
+        frontier = nxt
+    return p
+
+
+# ---------------------------------------------------------------------------
+# (c) identity
+# ---------------------------------------------------------------------------
+class _RecHash:
+    def __init__(self, real: Any, sink: list) -> None:
+        self._h, self._sink = real, sink
+
+    def update(self, data: bytes) -> None:
+        self._sink.append(bytes(data))
+        self._h.update(data)
+
+    def hexdigest(self) -> str:
+        return self._h.hexdigest()
+
+    def digest(self) -> bytes:
+        return self._h.digest()
+
+
+class RecHashlib:
+    """Stand-in for the `hashlib` name inside pynenc.call: records, per sha256 object, every byte fed."""
+
+    def __init__(self, real: Any) -> None:
+        self._real = real
+        self.log: list[list[bytes]] = []
+
+    def sha256(self, data: bytes = b"", **kw: Any) -> _RecHash:
+        sink: list[bytes] = [bytes(data)] if data else []
+        self.log.append(sink)
+        return _RecHash(self._real.sha256(data, **kw), sink)
+
+    def __getattr__(self, name: str) -> Any:
+        return getattr(self._real, name)
+
+    def take(self) -> bytes | None:
+        """Pre-image of the single hash computed since the last take (None: nothing was hashed)."""
+        if not self.log:
+            return None
+        if len(self.log) != 1:
+            raise AssertionError(f"{len(self.log)} hashes for one identity")
+        out = b"".join(self.log[0])
+        self.log.clear()
+        return out
+
+
+class recording:
+    def __enter__(self) -> RecHashlib:
+        import pynenc.call as pc
+
+        self.pc = pc
+        self.saved = pc.hashlib
+        self.rec = RecHashlib(self.saved)
+        pc.hashlib = self.rec
+        return self.rec
+
+    def __exit__(self, *exc: Any) -> None:
+        self.pc.hashlib = self.saved
+
+
+ID_KEYS_QUICK = ("a", "b", "a=b", "a;")
+ID_KEYS_THOROUGH = ("a", "b", "a=b", "a;", 'a"')
+ID_VALUES = ("1", "2", "1;b=2", '1";"b"="2', "\\", '"', "é")
+
+
+def id_dicts(keys: tuple) -> list[dict]:
+    """Every dict over `keys` (each key absent or bound to one of ID_VALUES), insertion order = key order."""
+    out = []
+    for combo in itertools.product((None,) + ID_VALUES, repeat=len(keys)):
+        out.append({k: v for k, v in zip(keys, combo) if v is not None})
+    return out
+
+
+def _find(seq: list, x: Any, start: int) -> int | None:
+    try:
+        return seq.index(x, start)
+    except ValueError:
+        return None
+
+
+def _pairs_unit(item: tuple) -> Partial:
+    """All pairs (i, j), i in [lo, hi), j > i, of the dict domain through compute_args_id, plus every
+    insertion order of dict i."""
+    keys, start, step = item
+    from pynenc.call import compute_args_id
+
+    p = Partial()
+    ds = id_dicts(keys)
+    with recording() as rec:
+        pre: list = []
+        ids: list = []
+        for d in ds:
+            ids.append(compute_args_id(d))
+            pre.append(rec.take())
+            p.count("transitions")
+        for i in range(start, len(ds), step):
+            d = ds[i]
+            p.count("states")
+            p.count("identity_dicts")
+            # insertion orders
+            for perm in itertools.permutations(list(d.items())):
+                d2 = dict(perm)
+                i2 = compute_args_id(d2)
+                pre2 = rec.take()
+                p.count("transitions")
+                p.count("identity_orders")
+                if pre2 != pre[i] or i2 != ids[i]:
+                    p.violation({"clause": "identity:depends-on-argument-order"},
+                                {"order_a": list(d), "order_b": list(d2), "preimage_a": repr(pre[i]), "preimage_b": repr(pre2)},
+                                {"kind": "pair", "a": d, "b": d2, "order_a": list(d), "order_b": list(d2)})
+                    break
+            # pairs with every later (different) dict: list.index scans with the C-level == of bytes / str
+            npairs = len(ds) - i - 1
+            p.count("identity_pairs", npairs)
+            p.count("traces_validated_against_impl", npairs)
+            j = _find(pre, pre[i], i + 1)
+            if j is not None:
+                p.violation({"clause": "identity:equal-preimage-for-different-arguments"},
+                            {"a": ds[i], "b": ds[j], "preimage": repr(pre[i])},
+                            {"kind": "pair", "a": ds[i], "b": ds[j]})
+            else:
+                j = _find(ids, ids[i], i + 1)
+                if j is not None:
+                    p.violation({"clause": "identity:equal-id-for-different-preimages"},
+                                {"a": ds[i], "b": ds[j], "id": ids[i]},
+                                {"kind": "pair", "a": ds[i], "b": ds[j]})
+            if (pre[i] is None) != (not d):
+                p.violation({"clause": "identity:nothing-hashed-for-non-empty-arguments"}, {"a": d},
+                            {"kind": "pair", "a": d, "b": {}})
+    if start == 0:
+        a, b = {"a": "1;b=2"}, {"a": "1", "b": "2"}
+        p.sample({"separator_shifting_pair": [a, b],
+                  "preimages": [repr(pre[ds.index(a)]), repr(pre[ds.index(b)])]})
+    return p
+
+
+def spellings_f() -> list[tuple]:
+    """(assignment, positional, keywords-in-order) for f(a, b=1, *, c=2)."""
+    out = []
+    for a, b, c in itertools.product((0, "0", None), (1, 5), (2, 7)):
+        for npos in (0, 1, 2):
+            pos = (a, b)[:npos]
+            kws = {}
+            if npos < 1:
+                kws["a"] = a
+            if npos < 2:
+                kws["b"] = b
+            kws["c"] = c
+            optional = [k for k, dflt in (("b", 1), ("c", 2)) if k in kws and kws[k] == dflt and type(kws[k]) is int]
+            for r in range(len(optional) + 1):
+                for omit in itertools.combinations(optional, r):
+                    given = [k for k in kws if k not in omit]
+                    for order in itertools.permutations(given):
+                        out.append(((a, b, c), pos, tuple((k, kws[k]) for k in order)))
+    return out
+
+
+def _call_ids_of_spelling(app: Any, task: Any, pos: tuple, kws: dict, p: Partial) -> list[tuple]:
+    """Every way of writing this one call -> [(how, call_id key, bound kwargs read back)]."""
+    from pynenc.call import Call
+
+    out = []
+    inv = task(*pos, **kws)
+    back = app.state_backend.get_invocation(inv.invocation_id)
+    out.append(("call", inv.call.call_id.key, inv.call.arguments.kwargs))
+    out.append(("call:read-back", back.call.call_id.key, back.call.arguments.kwargs))
+    c = Call(task, task.args(*pos, **kws))
+    out.append(("Call(args)", c.call_id.key, c.arguments.kwargs))
+    p.count("transitions", 3)
+    forms: list[tuple] = [("parallelize:Arguments", task.args(*pos, **kws), None)]
+    if not kws:
+        forms.append(("parallelize:tuple", tuple(pos), None))
+    if not pos:
+        forms.append(("parallelize:dict", dict(kws), None))
+        names = list(kws)
+        for r in range(1, len(names) + 1):
+            for common in itertools.combinations(names, r):
+                forms.append((f"parallelize:common_args({','.join(common)})",
+                              {k: v for k, v in kws.items() if k not in common},
+                              {k: kws[k] for k in common}))
+    for how, param, common in forms:
+        for copies in (1, 2):  # 1: one call at a time; 2: the batch path (PreSerializedCall, route_calls)
+            grp = task.parallelize([param] * copies, common) if common is not None else task.parallelize([param] * copies)
+            p.count("transitions")
+            for gi in grp.invocations:
+                back = app.state_backend.get_invocation(gi.invocation_id)
+                out.append((f"{how}x{copies}", gi.call.call_id.key, gi.call.arguments.kwargs))
+                out.append((f"{how}x{copies}:read-back", back.call.call_id.key, back.call.arguments.kwargs))
+    return out
+
+
+def _spelling_unit(item: tuple) -> Partial:
+    serializer, backend = item
+    p = Partial()
+    env.reset_world()
+    db = {"db": env.reuse_db("c15i")} if backend == env.SQLITE else {}
+    app = env.make_app(backend, app_id="c15i", serializer_cls=serializer, **db)
+    tf, tg, tg2, th = (app.task(fn) for fn in (T.f, T.g, T.g2, T.h))
+    cfg = {"serializer": serializer, "store": backend}
+    by_assignment: dict = {}  # (task, canonical assignment) -> {call id: first spelling}
+    with recording() as rec:
+        def one(tname: str, task: Any, assignment: dict, pos: tuple, kws: dict) -> None:
+            akey = (tname, crep(assignment))
+            spelled = f"{tname}({', '.join([crep(x) for x in pos] + [f'{k}={crep(v)}' for k, v in kws.items()])})"
+            p.count("states")
+            p.count("identity_spellings")
+            try:
+                results = _call_ids_of_spelling(app, task, pos, kws, p)
+            except Exception as e:  # noqa: BLE001
+                p.violation({"clause": "identity:spelling-raises", "error": type(e).__name__},
+                            {**cfg, "spelling": spelled, "error": str(e)[:300]},
+                            {"kind": "spelling", **cfg, "task": tname, "pos": list(pos), "kws": kws})
+                return
+            rec.log.clear()
+            for how, cid, bound in results:
+                p.count("traces_validated_against_impl")
+                ids = by_assignment.setdefault(akey, {})
+                if cid not in ids:
+                    ids[cid] = f"{spelled} via {how}"
+                if len(ids) > 1:
+                    first = next(iter(ids.values()))
+                    p.violation({"clause": "identity:spellings-of-one-call-get-different-ids", "via": how.split("x")[0].split("(")[0]},
+                                {**cfg, "spelling": f"{spelled} via {how}", "other": first, "ids": list(ids),
+                                 "bound_arguments": crep(bound)},
+                                {"kind": "spelling", **cfg, "task": tname, "pos": list(pos), "kws": kws})
+                    del ids[cid]  # keep the canonical one; report every deviating route once per signature
+                    continue
+                if not deq(dict(bound), assignment):
+                    p.violation({"clause": "identity:bound-arguments-differ", "via": how.split("x")[0].split("(")[0]},
+                                {**cfg, "spelling": f"{spelled} via {how}", "bound": crep(bound), "expected": crep(assignment)},
+                                {"kind": "spelling", **cfg, "task": tname, "pos": list(pos), "kws": kws})
+
+        for (a, b, c), pos, kwl in spellings_f():
+            one("f", tf, {"a": a, "b": b, "c": c}, pos, dict(kwl))
+        for v in (0, "0", None, [1, {"k": "é"}], '1";"x"="2'):
+            for tname, task in (("g", tg), ("g2", tg2)):
+                one(tname, task, {"x": v}, (v,), {})
+                one(tname, task, {"x": v}, (), {"x": v})
+        one("h", th, {}, (), {})
+    # different assignments (or tasks) => different ids
+    owner: dict = {}
+    for akey, ids in by_assignment.items():
+        for cid in ids:
+            if cid in owner and owner[cid] != akey:
+                p.violation({"clause": "identity:different-calls-get-one-id"},
+                            {**cfg, "a": owner[cid], "b": akey, "id": cid}, {"kind": "spelling-all", **cfg})
+            owner.setdefault(cid, akey)
+    p.count("identity_assignments", len(by_assignment))
+    p.sample({**cfg, "assignment": "f(a=0,b=1,c=2)", "spellings_with_one_id": sum(1 for s in spellings_f() if s[0] == (0, 1, 2)),
+              "id": next(iter(by_assignment[("f", crep({"a": 0, "b": 1, "c": 2}))]))})
+    return p
+
+
+def _call_pairs_unit(item: tuple) -> Partial:
+    """Real Call objects: raw string arguments under adversarial keys, two tasks, one serializer.
+    Pre-image of a call identity = (task id, bytes hashed). All pairs."""
+    from pynenc.arguments import Arguments
+    from pynenc.call import Call
+    from pynenc.identifiers.call_id import CallId
+
+    (serializer,) = item
+    p = Partial()
+    env.reset_world()
+    app = env.make_app(env.MEM, app_id="c15p", serializer_cls=serializer)
+    tg, tg2 = app.task(T.g), app.task(T.g2)
+    ds = id_dicts(("a", "b", "a;"))
+    rows = []  # (task name, raw dict, serialized dict, preimage, call id)
+    with recording() as rec:
+        for tname, task in (("g", tg), ("g2", tg2)):
+            for d in ds:
+                orders = list(itertools.permutations(list(d.items())))
+                first = None
+                for perm in orders:
+                    call = Call(task, Arguments(kwargs=dict(perm)))
+                    cid = call.call_id
+                    pre = (task.task_id.key, rec.take())
+                    ser = dict(call.serialized_arguments)
+                    p.count("transitions")
+                    if CallId.from_key(cid.key) != cid:
+                        p.violation({"clause": "identity:call-id-key-does-not-parse-back"}, {"key": cid.key},
+                                    {"kind": "callpair", "serializer": serializer})
+                    if first is None:
+                        first = (pre, cid.key)
+                        rows.append((tname, d, ser, pre, cid.key))
+                    elif (pre, cid.key) != first:
+                        p.violation({"clause": "identity:depends-on-argument-order"},
+                                    {"serializer": serializer, "task": tname, "order_a": list(d), "order_b": [k for k, _ in perm]},
+                                    {"kind": "callpair", "serializer": serializer})
+                p.count("states")
+    for i in range(len(rows)):
+        ti, di, si, pi, ci = rows[i]
+        for j in range(i + 1, len(rows)):
+            tj, dj, sj, pj, cj = rows[j]
+            same_input = ti == tj and si == sj
+            p.count("identity_pairs")
+            p.count("traces_validated_against_impl")
+            if (pi == pj) != same_input:
+                p.violation({"clause": "identity:preimage-equality-differs-from-(task,serialized-args)-equality"},
+                            {"serializer": serializer, "a": [ti, di], "b": [tj, dj], "preimage_a": repr(pi), "preimage_b": repr(pj)},
+                            {"kind": "callpair", "serializer": serializer})
+                break
+            if (ci == cj) != (pi == pj):
+                p.violation({"clause": "identity:id-equality-differs-from-preimage-equality"},
+                            {"serializer": serializer, "a": [ti, di], "b": [tj, dj], "ids": [ci, cj]},
+                            {"kind": "callpair", "serializer": serializer})
+                break
+            if same_input != (ti == tj and di == dj):
+                p.violation({"clause": "identity:serialized-arguments-equal-for-different-raw-arguments"},
+                            {"serializer": serializer, "a": [ti, di], "b": [tj, dj]},
+                            {"kind": "callpair", "serializer": serializer})
+                break
+    return p
+
+
+# ---------------------------------------------------------------------------
+# driver
+# ---------------------------------------------------------------------------
+def _chunks(n: int, size: int) -> list[tuple[int, int]]:
+    return [(lo, min(lo + size, n)) for lo in range(0, n, size)]
+
+
+def _value_items(thorough: bool) -> list[tuple]:
+    """quick: SQLite 'lite' values, memory 'l2' (data store on) / 'l1' (data store off);
+    thorough: SQLite 'l1', memory 'l2'.  Fresh-app cases: every atom (memory thorough: 'lite')."""
+    items: list[tuple] = []
+    # SQLite first (a case costs ~10 ms there, ~0.2 ms in memory): better balance of the pool
+    sq_level = "l1" if thorough else "lite"
+    for ser in SERIALIZERS:
+        for cds_off in (False, True):
+            n = len(values_for(ser, sq_level))
+            items += [(ser, env.SQLITE, cds_off, sq_level, lo, hi, False) for lo, hi in _chunks(n, 40)]
+    for ser in SERIALIZERS:
+        for backend in env.BACKENDS:
+            for cds_off in (False, True):
+                level = "lite" if (thorough and backend == env.MEM) else "atoms"
+                n = len(values_for(ser, level))
+                size = 8 if backend == env.SQLITE else 32
+                items += [(ser, backend, cds_off, level, lo, hi, True) for lo, hi in _chunks(n, size)]
+    for ser in SERIALIZERS:
+        for cds_off in (False, True):
+            level = "l2" if (thorough or not cds_off) else "l1"
+            n = len(values_for(ser, level))
+            items += [(ser, env.MEM, cds_off, level, lo, hi, False) for lo, hi in _chunks(n, 200)]
+    return items
+
+
+def _store_items(thorough: bool) -> list[tuple]:
+    items = []
+    for backend in env.BACKENDS:
+        for ser in SERIALIZERS:
+            n = 3 if (thorough or backend == env.MEM) else 2
+            depth = 5 if (thorough and backend == env.MEM) else 4
+            w = StoreWorld(ser, backend, n)
+            w.vals, w.last_ref, w.returned = _store_values(n), [None] * n, [None] * n
+            for first in w.enabled():
+                items.append((ser, backend, n, depth, first))
+    return items
+
+
+def _dispatch(item: tuple) -> Partial:
+    return UNITS[item[0]](item[1])
+
+
+def run(ctx: Ctx) -> None:
+    only = getattr(ctx, "only", None)
+    keys = ID_KEYS_THOROUGH if ctx.thorough else ID_KEYS_QUICK
+    work: list[tuple] = []
+    if not only or "values" in only:
+        work += [("values", it) for it in _value_items(ctx.thorough)]
+    if not only or "store" in only:
+        work += [("store", it) for it in _store_items(ctx.thorough)]
+    if not only or "identity" in only:
+        step = 64 if ctx.thorough else 16
+        work += [("pairs", (keys, s, step)) for s in range(step)]
+        work += [("spelling", (ser, b)) for ser in SERIALIZERS for b in env.BACKENDS]
+        work += [("callpairs", (ser,)) for ser in SERIALIZERS]
+    # VERIF_SEED only rotates the order of the independent units
+    parts = par.pmap(_dispatch, work)
+    rot = ctx.seed % max(1, len(parts))
+    del rot  # results are merged in item order whatever the execution order
+    for part in parts:
+        ctx.merge(part)
+    if "store_states" in ctx.sets:
+        ctx.count("states", len(ctx.sets["store_states"]))
+        ctx.extra["store_states"] = len(ctx.sets.pop("store_states"))
+    ctx.extra["values_per_serializer"] = {s: len(values_for(s, "l2")) for s in SERIALIZERS}
+    ctx.extra["identity_dict_domain"] = len(id_dicts(keys))
+    ctx.rule = (
+        "values: every value of the generated domain (atoms; all lists of length <=2 and str-keyed dicts of size <=2 over "
+        "all atoms; all such containers over small atoms and depth-1 containers) x 3 serializers x min_size_to_cache "
+        "{1,L-1,L,L+1,1024} x disable_client_data_store x disable_cache_args {(),(x),(*)} x {mem,sqlite}, each read back "
+        "on the worker side with a cold LRU and read again after all writes; store: every enabled operation sequence up "
+        "to the depth bound over serialize/resolve/mutate-returned/mutate-original/purge/cold for 2-3 values against a "
+        "content-addressed model; identity: every spelling of f(a,b=1,*,c=2), g(x), h() incl. parallelize forms, every "
+        "pair and every insertion order of all dicts over the adversarial key and value sets through compute_args_id "
+        "with the SHA-256 pre-image recorded, and all pairs of real Call objects of two tasks. "
+        "states = (value, configuration) cases + distinct store states + identity dicts/spellings; transitions = "
+        "operations executed; traces = round trips / histories / pairs compared"
+    )
+    ctx.assume("JsonSerializer domain (docs/reference/serializers.md): None, bool, int, float incl. nan/inf/-0.0 (Python's json "
+               "writes and reads them), str incl. lone surrogates and NUL, list, dict with str keys not equal to a reserved "
+               "key, Enum/IntEnum/StrEnum, builtin and user exceptions with JSON-native args, JsonSerializable objects whose "
+               "to_json() is JSON-native; tuples, sets, bytes and non-string keys are outside it")
+    ctx.assume("JsonPickleSerializer domain: the above + tuple, NamedTuple, set, frozenset, bytes, complex, dataclass; non-string "
+               "dict keys are outside (pynenc does not enable jsonpickle's keys=True) and so are dict keys starting with 'py/'; "
+               "PickleSerializer: the above + dicts with int/tuple/None/bool keys")
+    ctx.assume("dict equality ignores insertion order; objects without __eq__ are compared by type and attributes")
+    ctx.assume("worker side = state_backend.get_invocation(id).arguments.kwargs with an emptied LRU of deserialised objects; "
+               "for SQLite on a second app object on the same file (a brand-new one per read in the fresh-app cases); the "
+               "in-memory store lives inside the app object, so there the same object is read with an emptied LRU")
+    ctx.assume("thresholds are set by assigning client_data_store.conf.min_size_to_cache between cases; every atom is "
+               "additionally run with all configuration given through config_values to new app objects")
+    ctx.assume("max_size_to_cache = 0 (no upper limit), local_cache_size default, compression off")
+    ctx.assume("argument names are valid UTF-8 (a lone surrogate in a *key* cannot be hashed: not a Python identifier)")
+    ctx.assume("SHA-256 is trusted: injectivity is decided on the recorded pre-image")
+
+
+UNITS = {"values": _values_unit, "store": _store_unit, "pairs": _pairs_unit, "spelling": _spelling_unit,
+         "callpairs": _call_pairs_unit}
+
+
+def replay(payload: dict) -> bool:
+    r = payload["replay"]
+    kind = r.get("kind")
+    p = Partial()
+    if kind == "value":
+        ser, backend, cds_off, thr, fresh = r["serializer"], r["store"], r["cds_off"], r["thr"], r["fresh"]
+        value = values_for(ser, r["level"])[r["index"]]
+        cfg = {"serializer": ser, "store": backend, "cds_off": cds_off, "index": r["index"]}
+        w = RTWorld(ser, backend, cds_off, thr if fresh else None)
+        if not fresh:
+            w.set_threshold(thr)
+        later: list = []
+        run_case(p, w, value, thr, cfg, r, fresh, {}, later)
+        reread(p, w, later, lambda v, c: r, fresh)
+        return bool(p.violations)
+    if kind == "store":
+        hist = tuple(tuple(op) for op in r["history"])
+        return _run_history(StoreWorld(r["serializer"], r["store"], r["values"]), hist, None) is not None
+    if kind == "pair":
+        from pynenc.call import compute_args_id
+
+        a = {k: r["a"][k] for k in r.get("order_a", list(r["a"]))}
+        b = {k: r["b"][k] for k in r.get("order_b", list(r["b"]))}
+        with recording() as rec:
+            ia = compute_args_id(a)
+            pa = rec.take()
+            ib = compute_args_id(b)
+            pb = rec.take()
+        same = a == b
+        return (pa == pb) != same or (ia == ib) != same
+    if kind == "spelling":
+        env.reset_world()
+        db = {"db": env.reuse_db("c15i")} if r["store"] == env.SQLITE else {}
+        app = env.make_app(r["store"], app_id="c15i", serializer_cls=r["serializer"], **db)
+        task = app.task(getattr(T, r["task"]))
+        res = _call_ids_of_spelling(app, task, tuple(r["pos"]), dict(r["kws"]), p)
+        return len({cid for _how, cid, _b in res}) > 1 or any(not deq(dict(b), dict(res[0][2])) for _h, _c, b in res)
+    if kind == "spelling-all":
+        return bool(_spelling_unit((r["serializer"], r["store"])).violations)
+    if kind == "callpair":
+        return bool(_call_pairs_unit((r["serializer"],)).violations)
+    return False
